@@ -407,3 +407,73 @@ def rule_obj_all(body, I, M):
     return r
 RULES["obj_all"] = rule_obj_all
 PROPS["C09"]["streams"] = [dict(name="store", gen="store", rule="obj_all")]
+
+def _isdef(body, i):
+    return i == "def" or body[:2] in ("T ", "A ", "Y ")
+
+def rule_remarshal(body, I, M):
+    i = I.get("I", "")
+    if _isdef(body, i):
+        return dict(corr_ok=True, prop_ok=True, nontrivial=False, bucket="def", why="")
+    if _bad_impl(i):
+        return dict(corr_ok=False, prop_ok=False, nontrivial=True, bucket="crash", why="implementation " + i)
+    corr_ok = (i == M.get("M"))
+    o = I.get("O", "ok")
+    prop_ok, why = (o == "ok"), ("oracle: " + o if o != "ok" else "")
+    parts = i.split("/")
+    if prop_ok and parts[-1] == "ok" and M.get("S") is not None and parts[3] != M.get("S"):
+        prop_ok, why = False, "re-marshalled document decodes to %s, specified value is %s" % (parts[3], M.get("S"))
+    if not corr_ok and not why:
+        why = "implementation and model differ"
+    return dict(corr_ok=corr_ok, prop_ok=prop_ok, nontrivial=(parts[-1] == "ok" and len(parts[0]) > 4), bucket=parts[-1], why=why)
+RULES["remarshal"] = rule_remarshal
+
+def rule_clone(body, I, M):
+    i = I.get("I", "")
+    if _isdef(body, i):
+        return dict(corr_ok=True, prop_ok=True, nontrivial=False, bucket="def", why="")
+    if _bad_impl(i):
+        return dict(corr_ok=False, prop_ok=False, nontrivial=True, bucket="crash", why="implementation " + i)
+    corr_ok = (i == M.get("M"))
+    o = I.get("O", "ok")
+    prop_ok, why = (o == "ok"), ("oracle: " + o if o != "ok" else "")
+    parts = i.rsplit("/", 1)
+    if prop_ok and parts[-1] == "ok" and M.get("S") is not None and parts[0] != M.get("S"):
+        prop_ok, why = False, "clone is %s, specified value is %s" % (parts[0], M.get("S"))
+    if not corr_ok and not why:
+        why = "implementation and model differ"
+    return dict(corr_ok=corr_ok, prop_ok=prop_ok, nontrivial=(parts[-1] == "ok" and len(parts[0]) > 4), bucket=parts[-1], why=why)
+RULES["clone"] = rule_clone
+
+def rule_pump(body, I, M):
+    i = I.get("I", "")
+    if _isdef(body, i):
+        return dict(corr_ok=True, prop_ok=True, nontrivial=False, bucket="def", why="")
+    if _bad_impl(i):
+        return dict(corr_ok=False, prop_ok=False, nontrivial=True, bucket="crash", why="implementation " + i)
+    corr_ok = (i == M.get("M")) and I.get("W") == M.get("W")
+    o = I.get("O", "ok")
+    prop_ok, why = (o == "ok"), ("oracle: " + o if o != "ok" else "")
+    parts = i.split("/")
+    if prop_ok and parts[-1] == "ok":
+        w = I.get("W")
+        if w not in (None, "-") and w != parts[0]:
+            prop_ok, why = False, "streaming transcode %s differs from Unmarshal+Marshal %s" % (parts[0][:60], (w or "")[:60])
+        c = I.get("C")
+        if prop_ok and c is not None and c != parts[0]:
+            prop_ok, why = False, "command-line converter output %s differs from the library pump %s" % (c[:60], parts[0][:60])
+    elif prop_ok and I.get("C") not in (None, "err"):
+        prop_ok, why = False, "command-line converter succeeded where the library pump fails"
+    if not corr_ok and not why:
+        why = "implementation and model differ"
+    return dict(corr_ok=corr_ok, prop_ok=prop_ok, nontrivial=(parts[-1] == "ok" and len(parts[0]) > 4), bucket=parts[-1], why=why)
+RULES["pump"] = rule_pump
+
+for _pid, _name, _rule, _title in (("C12", "remarshal", "remarshal", "re-marshalling a decoded document reaches a byte-exact fixpoint"),
+                                  ("C11", "clone", "clone", "Clone is an equal, fully independent deep copy"),
+                                  ("C10", "pump", "pump", "streaming transcoding preserves the document")):
+    PROPS[_pid] = dict(
+        disabled=True, na_reason="model and correspondence tie built; theorems are being proved",
+        level="proof", lean_module="RefmtProofs.Props." + _pid, theorems=[],
+        streams=[dict(name=_name, gen=_name, rule=_rule)], title=_title, claim="(work in progress)",
+        rule_text="(see DESIGN.md)")
